@@ -3,7 +3,7 @@ import Okane.Lemmas.DocAcceptLedger
 # Acceptance of the documented grammar — the full statement is false; each side condition is necessary
 
 `DocAccept_full_stmt` — "every text derivable from `doc/syntax.md` as documented (`Dialect.documented`) is accepted" —
-is **false** (`not_DocAccept_full`).  More precisely each of the side conditions of `Dialect.accepted` is necessary:
+is **false** (`not_DocAccept_full`).  More precisely each of the three side conditions of `Dialect.accepted` is necessary:
 dropping any one of them admits a derivable text that the parser rejects.  Every witness below was replayed on the
 real binary (`printf '…' > /tmp/x.ledger; /verif/work/target/debug/okane format /tmp/x.ledger` exits 1 with the
 diagnostic quoted) and the parser model agrees (`drv c05 parse`).
@@ -13,8 +13,13 @@ diagnostic quoted) and the parser model agrees (`drv c05 parse`).
 | `numOk` (numbers within `rust_decimal`'s range) | `2024/01/01⏎ A  100000000000000000000000000000⏎` | `invalid metadata section of the posting` (line 2) |
 | `postingAccountOk` (no `;` in the account) | `2024/01/01⏎ A;  1 (⏎)⏎` | `invalid no matching syntax` (line 3: the account ends at `;`, the rest of the line is a comment, the lot note's second line is left over) |
 | `postingAccountOk` (account is not a clear mark) | `2024/01/01⏎ *⏎` | `invalid account of the posting` (line 2) |
-| `noteOk` (no unclosed `(` after the date) | `2024/01/01 (⏎account X)⏎ note c  d⏎` | `invalid metadata section of the posting` (line 3: the code runs to the `)` of line 2, and line 3 is read as a posting) |
 | `applyTagOk` (no form feed in the tag) | `apply tag ␌⏎` | parse error at column 11 of line 1 |
+
+A fourth condition, `noteOk` (no unclosed `(` after the date), was needed until the defect was repaired in the code: the
+witness `2024/01/01 (⏎account X)⏎ note c  d⏎` was rejected with `invalid metadata section of the posting` (line 3: the code
+ran to the `)` of line 2, and line 3 was read as a posting).  `paren_str` now has to close on its line; the witness is
+derivable in `Dialect.accepted` and accepted (`noteOk_not_needed`: a transaction with the payee `(`, then the account
+declaration `X)` with its note).
 
 Reading R7 is justified the same way (`literal_R7_rejected`): with unindented continuation metadata the text
 `2024/01/01 x⏎ A  1⏎;c⏎ B  1⏎` would be derivable, and the parser rejects it (`invalid no matching syntax`, line 4).
@@ -72,8 +77,6 @@ theorem account_one (c : Char) (r : List Char) (h : isNoSp c = true) : account (
 def Dialect.noNum : Dialect := { Dialect.accepted with numOk := fun _ => true }
 /-- … without the condition on the account of a posting -/
 def Dialect.noAccount : Dialect := { Dialect.accepted with postingAccountOk := fun _ => true }
-/-- … without the condition on the note of a transaction header -/
-def Dialect.noNote : Dialect := { Dialect.accepted with noteOk := fun _ => true }
 /-- … without the condition on the tag of `apply tag` -/
 def Dialect.noTag : Dialect := { Dialect.accepted with applyTagOk := fun _ => true }
 
@@ -124,7 +127,8 @@ theorem w_mark_doc : DocLedger Dialect.noAccount w_mark := by
   exact txn_one_posting (p := " *\n".toList)
     (posting_simple (a := ['*']) (v := []) (account_one '*' _ (by decide)) rfl (Or.inr rfl))
 
-theorem w_note_doc : DocLedger Dialect.noNote w_note := by
+/-- the former witness of `noteOk` is a documented text, in every dialect that accepts the account name `X)` -/
+theorem w_note_doc : DocLedger Dialect.accepted w_note := by
   -- a transaction `2024/01/01 (⏎` (payee `(`), then `account X)⏎ note c  d⏎`
   refine ⟨w_note, .nil _, .cons ⟨"account X)\n note c  d\n".toList, Or.inl ?_, .nil _⟩
     (.cons ⟨[], Or.inr (Or.inr (Or.inl ?_)), .nil _⟩ (.nil [])) ⟩
@@ -133,7 +137,7 @@ theorem w_note_doc : DocLedger Dialect.noNote w_note := by
       ⟨_, date_slash "2024".toList "01".toList "01".toList _ rfl rfl rfl (by decide) (by decide), Or.inr rfl⟩,
       "\naccount X)\n note c  d\n".toList, Or.inl ⟨"(\naccount X)\n note c  d\n".toList,
         plus_chr_of [' '] _ (by simp) (by decide), ?_⟩, Or.inl (newLine_nl _)⟩
-    exact ⟨⟨_, Or.inr rfl, _, Or.inr rfl, .cons ⟨'(', rfl, by decide⟩ (.nil _)⟩, ['('], rfl, rfl⟩
+    exact ⟨_, Or.inr rfl, _, Or.inr rfl, .cons ⟨'(', rfl, by decide⟩ (.nil _)⟩
   · refine ⟨" X)\n note c  d\n".toList, rfl, "X)\n note c  d\n".toList, plus_chr_of [' '] _ (by simp) (by decide),
       "\n note c  d\n".toList, ⟨_, ⟨'X', rfl, by decide⟩, .cons (Or.inl ⟨')', rfl, by decide⟩) (.nil _)⟩, _, .nil _,
       " note c  d\n".toList, newLine_nl _, .cons (Or.inl ?_) (.nil [])⟩
@@ -150,8 +154,7 @@ theorem w_tag_doc : DocLedger Dialect.noTag w_tag := by
 
 /-- the parser rejects each witness (kernel evaluation of the parser model; the real binary agrees) -/
 theorem witnesses_rejected :
-    accepts w_num = false ∧ accepts w_semi = false ∧ accepts w_mark = false ∧ accepts w_note = false ∧
-      accepts w_tag = false := by decide +kernel
+    accepts w_num = false ∧ accepts w_semi = false ∧ accepts w_mark = false ∧ accepts w_tag = false := by decide +kernel
 
 /-! ## the statements -/
 
@@ -172,8 +175,7 @@ theorem not_stmt_of_witness {D : Dialect} {t : List Char} (hd : DocLedger D t) (
 theorem numOk_needed : ¬ DocAccept_stmt Dialect.noNum := not_stmt_of_witness w_num_doc witnesses_rejected.1
 theorem accountSemicolon_needed : ¬ DocAccept_stmt Dialect.noAccount :=
   not_stmt_of_witness w_semi_doc witnesses_rejected.2.1
-theorem noteOk_needed : ¬ DocAccept_stmt Dialect.noNote := not_stmt_of_witness w_note_doc witnesses_rejected.2.2.2.1
-theorem applyTagOk_needed : ¬ DocAccept_stmt Dialect.noTag := not_stmt_of_witness w_tag_doc witnesses_rejected.2.2.2.2
+theorem applyTagOk_needed : ¬ DocAccept_stmt Dialect.noTag := not_stmt_of_witness w_tag_doc witnesses_rejected.2.2.2
 
 /-- the second half of `postingAccountOk` (the account does not begin with a clear mark) is needed too: keep "no `;`" and
 drop only that half -/
@@ -200,7 +202,26 @@ theorem not_DocAccept_full : ¬ DocAccept_full_stmt := not_stmt_of_witness w_mar
 transaction with two postings; the parser (rightly: an unindented `;` line is a top-level comment) rejects it -/
 theorem literal_R7_rejected : accepts "2024/01/01 x\n A  1\n;c\n B  1\n".toList = false := by decide +kernel
 
-/-- **the partial theorem** (restated): with the four side conditions the clause holds -/
+/-- **the partial theorem** (restated): with the three side conditions the clause holds -/
 theorem DocAccept_partial : DocAccept_stmt Dialect.accepted := DocAccept_ledger
+
+/-! ## regression: the repaired defect (transaction code across line ends) -/
+
+/-- what the parser (model) returns for the former witness of `noteOk`: the transaction with the payee `(` and no code,
+then the account `X)` with its note -/
+def w_note_expected : List Entry :=
+  [.txn { date := ⟨2024, 1, 1⟩, payee := "(" }, .account "X)" [.note "c  d\n"]]
+
+/-- **regression** (was `noteOk_needed : ¬ DocAccept_stmt Dialect.noNote`): the text `2024/01/01 (⏎account X)⏎ note c  d⏎`
+follows the documented syntax, and it is now ACCEPTED — by the theorem, and by kernel evaluation of the parser model, which
+reads it as documented (payee `(`, then an account declaration); the real binary agrees (`okane format` exits 0) -/
+theorem noteOk_not_needed :
+    DocLedger Dialect.accepted w_note ∧ accepts w_note = true ∧
+      (match Parse.parseEntries w_note with | .ok es => es == w_note_expected | _ => false) = true :=
+  ⟨w_note_doc, accepts_of_ok (DocAccept_ledger w_note w_note_doc), by decide +kernel⟩
+
+/-- the same header forms on one line: `(` closed after a `;` is a code; an unclosed `(` after a clear mark is the payee -/
+example : accepts "2024/01/01 * (abc ; x) y\n".toList = true ∧ accepts "2024/01/01 ! (abc ; x\n  A  1 USD\n".toList = true ∧
+    accepts "2024/01/01 (".toList = true := by decide +kernel
 
 end Okane.DocAccept
